@@ -86,19 +86,70 @@ def expected_useless(row):
     return out
 
 
+# expression / declaration contexts a `match` can stand in: (text before `match x {`, text after the closing `}`), inside
+# `fn m<k>(x: T): Int32 { ... }` unless the entry is marked "decl" (then {k}, {T} are substituted and it is a whole declaration).
+# Every context keeps the match well typed (its arms are Int32) so that the only diagnostics are the match's own.
+CONTEXTS = {
+    "fn":          ("", ""),
+    "assign":      ("let mut r = 0i32;\n    r = ", ";\n    r"),
+    "opassign":    ("let mut r = 0i32;\n    r += ", ";\n    r"),
+    "let":         ("let r: Int32 = ", ";\n    r"),
+    "return":      ("return ", ";"),
+    "callarg":     ("idf(", ")"),
+    "binop_r":     ("1i32 + ", ""),
+    "binop_l":     ("(", ") + 1i32"),
+    "cmp":         ("if (", ") == 1i32 { 1i32 } else { 2i32 }"),
+    "unary":       ("-(", ")"),
+    "tuple":       ("(0i32, ", ").1"),
+    "ifthen":      ("if g(9i32) { ", " } else { 0i32 }"),
+    "ifelse":      ("if g(9i32) { 0i32 } else { ", " }"),
+    "whilebody":   ("let mut r = 0i32;\n    while r < 1i32 { r = r + 1i32 + ", "; }\n    r"),
+    "whilecond":   ("while (", ") == 99i32 { }\n    0i32"),
+    "forbody":     ("let mut r = 0i32;\n    for i in std::range(0i64, 1i64) { r = ", "; }\n    r"),
+    "nested_arm":  ("match g(9i32) { true => ", ", false => 0i32 }"),
+    "nested_scrut": ("match (", ") { 1i32 => 1i32, _ => 2i32 }"),
+    "field_assign": ("let h = H(f = 0i32);\n    h.f = ", ";\n    h.f"),
+    "ctor_arg":    ("H(f = ", ").f"),
+    "struct_arg":  ("W(", ").0"),
+    "index_arg":   ("let a = Array[Int32]::fill(8i64, 0i32);\n    a((", ").to_int64())"),
+    "index_assign": ("let a = Array[Int32]::fill(8i64, 0i32);\n    a(0i64) = ", ";\n    a(0i64)"),
+    "method_recv": ("(", ").to_int64().to_int32()"),
+    "method_arg":  ("1i32.wrapping_add(", ")"),
+    "block":       ("{ let q = 0i32; ", " }"),
+    "paren":       ("(", ")"),
+    "template":    ("\"${", "}\".size().to_int32()"),
+    "lambda_capture": ("let f = ||: Int32 { ", " };\n    f()"),
+    "let_in_block_stmt": ("if g(9i32) { let q = ", "; }\n    0i32"),
+    "expr_stmt":   ("", ";\n    0i32"),
+    "implmethod":  ("decl", "impl W {{ fn m{k}(x: {T}): Int32 {{\n    ", "\n}} }}\n"),
+    "staticmethod": ("decl", "impl W {{ static fn s{k}(x: {T}): Int32 {{\n    ", "\n}} }}\n"),
+    "traitdefault": ("decl", "trait Tr{k} {{ fn m(x: {T}): Int32 {{\n    ", "\n}} }}\n"),
+    "traitimpl":   ("decl", "trait Tr{k} {{ fn m(x: {T}): Int32; }}\nimpl Tr{k} for W {{ fn m(x: {T}): Int32 {{\n    ", "\n}} }}\n"),
+    "modfn":       ("decl", "mod md{k} {{ use super::{{E3, P, g}}; pub fn m(x: {T}): Int32 {{\n    ", "\n}} }}\n"),
+}
+CTX_PRELUDE = ["class H { f: Int32 }", "struct W(Int32)", "fn idf(a: Int32): Int32 { a }"]
+
+
 def render_diag(rows, position="fn"):
     """returns (source, meta): meta[k] = {first,last (byte offsets of the function), arms: [{alts: [(start,end)], pat:(start,end)}]}"""
-    src = "\n".join(PRELUDE) + "\nfn main() {}\n"
+    src = "\n".join(PRELUDE + CTX_PRELUDE) + "\nfn main() {}\n"
     meta = []
     for k, row in enumerate(rows):
         ty = row["ty"]
         first = len(src.encode())
+        tail = None
         if position == "global":
             src += f"let G{k}: Int32 = match mk{k}() {{\n"
         elif position == "lambda":
             src += f"fn m{k}(x: {TY[ty]}): Int32 {{\n    let f = |y: {TY[ty]}|: Int32 {{ match y {{\n"
         else:
-            src += f"fn m{k}(x: {TY[ty]}): Int32 {{\n    match x {{\n"
+            c = CONTEXTS[position]
+            if c[0] == "decl":
+                src += c[1].format(k=k, T=TY[ty]) + "match x {\n"
+                tail = "    }" + c[2].format(k=k, T=TY[ty])
+            else:
+                src += f"fn m{k}(x: {TY[ty]}): Int32 {{\n    {c[0]}match x {{\n"
+                tail = "    }" + c[1] + "\n}\n"
         arms = []
         names = [k]
         for i, a in enumerate(row["arms"]):
@@ -124,7 +175,7 @@ def render_diag(rows, position="fn"):
         elif position == "lambda":
             src += "    } };\n    f(x)\n}\n"
         else:
-            src += "    }\n}\n"
+            src += tail
         meta.append({"k": k, "first": first, "last": len(src.encode()), "arms": arms})
     return src, meta
 
